@@ -143,6 +143,31 @@ def cells(x):
 # ---------------------------------------------------------------------------------------------------
 
 S3, S2 = (BIG, BIG, BIG), (BIG, BIG)
+# huge extents that are NOT round numbers: the logical sizes (1.00002e18, 4.0e18) exceed 2**53 and are not float64 values (10**18 = 2**18 * 5**18
+# is one), so that any float arithmetic on sizes or linear indices shows
+ODD3, ODD2 = (1000003, 999983, 1000033), (2000000011, 1999999973)
+assert all(float(p) != p for p in (ODD3[0] * ODD3[1] * ODD3[2], ODD2[0] * ODD2[1])) and ODD3[0] * ODD3[1] * ODD3[2] > 2**53
+
+
+def lin_index(c, shape):
+    """row-major linear index in Python integers"""
+    v = 0
+    for i, d in zip(c, shape):
+        v = v * d + i
+    return v
+
+
+def unravel(v, shape):
+    out = []
+    for d in reversed(shape):
+        out.append(v % d)
+        v //= d
+    return out[::-1]
+
+
+def coo_of(shape, d, fill=0):
+    keys = sorted(d)
+    return {"shape": list(shape), "coords": [list(k) for k in keys], "data": [d[k] for k in keys], "fill": fill}
 
 
 def ok_coo(o):
@@ -181,6 +206,28 @@ def mk_cases(rng, quick):
             cost=lambda a, xs=xs, sq=sq: ["cost", "squeeze", xs["shape"], len(xs["data"]), sq])
         pos = int(rng.integers(0, 4))
         add("expand_dims", {"op": "expand_dims", "x": x, "axis": pos}, ["expand_dims_core", x, pos], cost=lambda a, sh=sh, n=n: ["cost", "expand_dims", sh, n])
+
+        # ---- the same shape operations on odd extents (size > 2**53, not a float64): the unknown extent of reshape, strides ---------
+        xo = rand_coo(rng, ODD3 if rng.random() < 0.7 else ODD2, nnz_choice(rng, quick), fill=int(rng.choice([0, 0, 2])))
+        sho, no = xo["shape"], len(xo["data"])
+        No = int(np.prod(sho, dtype=object))
+        if len(sho) == 3:
+            otargets = [([-1], [No]), ([-1, sho[2]], [sho[0] * sho[1], sho[2]]), ([sho[0], -1], [sho[0], sho[1] * sho[2]]),
+                        ([sho[2], -1, sho[0]], [sho[2], sho[1], sho[0]]), ([1, -1, 1], [1, No, 1]), ([No], [No])]
+        else:
+            otargets = [([-1], [No]), ([-1, sho[0]], [sho[1], sho[0]]), ([1, 1, -1], [1, 1, No]), ([No], [No])]
+        for k_, (tw, tm) in enumerate(otargets):
+            if quick and k_ and rng.random() < 0.5:
+                continue
+            add("reshape", {"op": "reshape", "x": xo, "shape": tw}, ["reshape_core", xo, tm], cost=lambda a, sho=sho, no=no, tm=tm: ["cost", "reshape", sho, no, tm])
+        axo = [2, 0, 1] if len(sho) == 3 else [1, 0]
+        add("transpose", {"op": "transpose", "x": xo, "axes": axo}, ["transpose_core", xo, axo], cost=lambda a, sho=sho, no=no, axo=axo: ["cost", "transpose", sho, no, axo])
+        add("flip", {"op": "flip", "x": xo, "axes": [0]}, ["flip_core", xo, [0]], cost=lambda a, sho=sho, no=no: ["cost", "flip", sho, no, [0]])
+        hito = xo["coords"][int(rng.integers(len(xo["coords"])))]
+        ixo = [["i", hito[0]], ["s", None, None, None]] if rng.random() < 0.5 else [["s", hito[0], None, 3], ["i", hito[1] - sho[1]]]
+        add("getitem", {"op": "getitem", "x": xo, "index": ixo}, ["getitem", xo, ixo], lane=1,
+            cost=lambda a, xo=xo: ["cost", "getitem", xo["shape"], len(xo["data"])] + ([a["out"]["ok"]["shape"], len(a["out"]["ok"]["data"])]
+                                                                                        if isinstance(a["out"].get("ok"), dict) and "shape" in a["out"]["ok"] else [[], 1]) + [False, None])
 
         # ---- indexing (lane 1) ---------------------------------------------------------------------
         xi = rand_coo(rng, S3, max(40, nnz_choice(rng, quick)))
@@ -404,6 +451,79 @@ def unmodelled_cases(rng, quick):
     cs.append(("gcxs:todok", {"op": "asformat", "x": x3, "to": "dok", "format": G0}, ("same", x3), 90, None, s3))
     cs.append(("dok:x[i,j,k]", {"op": "getitem", "x": x3, "index": [["i", hit[0]], ["i", hit[1]], ["i", hit[2]]], "format": "dok"}, ("coo", ["getitem", x3, [["i", hit[0]], ["i", hit[1]], ["i", hit[2]]]]), 60, None, s3))
     cs.append(("dok:x[::2]", {"op": "getitem", "x": x3, "index": [["s", None, None, 2]], "format": "dok"}, ("coo", ["getitem", x3, [["s", None, None, 2]]]), 60, None, s3))
+    cs += odd_extent_cases(rng, quick)
+    cs += broadcast_all_cases(rng, quick)
+    return cs
+
+
+def odd_extent_cases(rng, quick):
+    """everything that flattens, on a (1000003, 999983, 1000033) / (2000000011, 1999999973) array: flatten(), reshape(-1), argmax over all axes,
+    unique_values, concatenate / roll / take with axis=None, for every format that offers the operation.  Lane 6."""
+    cs = []
+    G0 = ["gcxs", [0]]
+    for shp in ((ODD3,) if quick else (ODD3, ODD2)):
+        x = rand_coo(rng, shp, 300)
+        y = rand_coo(rng, shp, 200)
+        N = int(np.prod(shp, dtype=object))
+        size = cells(x) + lsum(shp)
+        flat = ["reshape_core", x, [N]]
+        tag = "x".join(str(d) for d in shp)
+        for fname, fmt in (("coo", None), ("gcxs", G0), ("dok", "dok")):
+            if fname == "gcxs" and max(shp) > 10**8:
+                continue    # indptr alone (one entry per row of the compressed axis: linear in the axis, which the property allows) exceeds RLIMIT_AS
+            w = {"lane": 6} if fmt is None else {"lane": 6, "format": fmt}
+            if fname != "dok":     # DOK offers no flatten()
+                cs.append((f"odd:{fname}:flatten:{tag}", dict(w, op="method", x=x, name="flatten"), ("coo", flat), 90, None, size))
+            cs.append((f"odd:{fname}:reshape(-1):{tag}", dict(w, op="reshape", x=x, shape=[-1]), ("coo", flat), 90, None, size))
+            cs.append((f"odd:{fname}:reshape(-1,1):{tag}", dict(w, op="fn", name="reshape", xs=[x], args=[[-1, 1]]), ("coo", ["reshape_core", x, [N, 1]]), 90, None, size))
+        # argmax over all axes: the first position (row-major) of the largest stored value (values are positive, the fill is 0)
+        lins = [lin_index(c, shp) for c in x["coords"]]
+        best = max(x["data"])
+        cs.append((f"odd:argmax:{tag}", {"lane": 6, "op": "fn", "name": "argmax", "xs": [x]}, ("json", {"scalar": lins[x["data"].index(best)]}), 120, None, size))
+        cs.append((f"odd:unique_values:{tag}", {"lane": 6, "op": "fn", "name": "unique_values", "xs": [x]}, ("json", {"ndarray": sorted(set(x["data"]) | {0})}), 90, None, size))
+        both = {(v,): d for v, d in zip(lins, x["data"])}
+        both.update({(N + lin_index(c, shp),): d for c, d in zip(y["coords"], y["data"])})
+        cs.append((f"odd:concatenate(axis=None):{tag}", {"lane": 6, "op": "fn", "name": "concatenate", "xs": [x, y], "as_list": True, "kwargs": {"axis": None}},
+                   ("json", coo_of([2 * N], both)), 90, None, size + cells(y)))
+        shift = int(rng.integers(1, 10**13))
+        rolled = {tuple(unravel((v + shift) % N, shp)): d for v, d in zip(lins, x["data"])}
+        cs.append((f"odd:roll(axis=None):{tag}", {"lane": 6, "op": "fn", "name": "roll", "xs": [x], "args": [shift], "kwargs": {"axis": None}},
+                   ("json", coo_of(shp, rolled)), 90, None, size))
+        pick = [lins[5], 0, lins[17], N - 1, lins[5]]
+        look = dict(zip(lins, x["data"]))
+        taken = {(k,): look[v] for k, v in enumerate(pick) if v in look}
+        cs.append((f"odd:take(axis=None):{tag}", {"lane": 6, "op": "fn", "name": "take", "xs": [x], "args": [{"array": pick}], "kwargs": {"axis": None}},
+                   ("json", coo_of([len(pick)], taken)), 120, None, size))
+    return cs
+
+
+def broadcast_all_cases(rng, quick):
+    """fill-preserving binary operations between a huge array and a SPARSE operand every axis of which has length 1 (shape (1,), (1, 1),
+    (1, 1, 1): broadcast along every axis), both operand orders, every format: the result has the stored positions of the huge operand.  Lane 6."""
+    cs = []
+    G0 = ["gcxs", [0]]
+    shapes = [(1,), (1, 1, 1)] if quick else [(1,), (1, 1), (1, 1, 1)]
+    for xshape in ((S3,) if quick else (S3, S2, ODD3)):
+        x = rand_coo(rng, xshape, 300, lo=1, hi=8)
+        size = cells(x) * 2 + lsum(xshape)
+        for sshape in shapes:
+            if len(sshape) > len(xshape):
+                continue
+            v = int(rng.integers(2, 7))
+            s = {"shape": list(sshape), "coords": [[0] * len(sshape)], "data": [v], "fill": 0}
+            for func, f in (("multiply", lambda a, b: a * b), ("minimum", min)):
+                ref = (list(xshape), {tuple(c): f(d, v) for c, d in zip(x["coords"], x["data"])})
+                for fname, fx, fs in (("coo", None, None), ("gcxs", G0, ["gcxs", None if len(sshape) == 1 else [0]]), ("dok", "dok", "dok")):
+                    for order in ("xs", "sx"):
+                        if quick and rng.random() < 0.35:
+                            continue
+                        ox = {"coo": x} if fx is None else {"coo": x, "format": fx}
+                        os_ = {"coo": s} if fs is None else {"coo": s, "format": fs}
+                        ops = [ox, os_] if order == "xs" else [os_, ox]
+                        w = {"lane": 6, "op": "elemwise", "func": func, "operands": ops}
+                        if fx is not None:
+                            w["want_coo"] = True
+                        cs.append((f"bcast-all:{fname}:{func}:{order}:{'x'.join(map(str, sshape))}:{len(xshape)}d", w, ref, 90, None, size))
     return cs
 
 
@@ -468,8 +588,9 @@ def run(ctx):
 
     cases = mk_cases(rng, quick)
     extra = unmodelled_cases(rng, quick)
-    # lanes: 0..3 modelled families, 4 = GCXS/DOK-format and products, 5 = the (10^6)^2 sparse @ sparse products (short deadline)
-    lanes = [[] for _ in range(6)]
+    # lanes: 0..3 modelled families, 4 = GCXS/DOK-format and products, 5 = the (10^6)^2 sparse @ sparse products (short deadline),
+    # 6 = odd extents (everything that flattens) and operands broadcast along every axis
+    lanes = [[] for _ in range(7)]
     where = []
     for i, c in enumerate(cases):
         lanes[c["lane"]].append((c["w"], 150))
@@ -478,10 +599,10 @@ def run(ctx):
     for fam, w, ref, deadline, expect, size in extra:
         w = dict(w)
         slow = bool(w.pop("slow_lane", False))
+        ln = w.pop("lane", 5 if slow else 4)
         w["warm"] = True
         if ref is not None and (w.get("format") or w.get("format_a")):
             w["want_coo"] = True
-        ln = 5 if slow else 4
         lanes[ln].append((w, deadline))
         where_x.append((ln, len(lanes[ln]) - 1))
     t0 = time.time()
@@ -596,7 +717,7 @@ def run(ctx):
         if isinstance(ref, tuple) and ref and ref[0] in ("coo", "elem"):
             m = mo2[k]
             want = pick_elem(m) if ref[0] == "elem" else ok_coo(m)
-        elif isinstance(ref, tuple) and ref and ref[0] == "same":
+        elif isinstance(ref, tuple) and ref and ref[0] in ("same", "json"):
             want = ref[1]
         elif isinstance(ref, tuple):
             shape, d = ref
